@@ -42,7 +42,8 @@ extern void mpt_gnode_relink(MPT_STRUCT(node) *node)
 			node = node->next;
 		}
 		else {
-			node = node->parent->next;
+			/* stay below the start node (its siblings may have no parent) */
+			node = (node->parent == start) ? 0 : node->parent->next;
 		}
 	}
 }
